@@ -32,9 +32,10 @@ def heap_sort(name: str):
 class Val:
     """A Python value during symbolic execution: z3 term of sort V + static hint + optional real object."""
 
-    __slots__ = ("t", "ty", "py", "parts")
+    __slots__ = ("t", "ty", "py", "parts", "is_own_kwargs")
 
     def __init__(self, t, ty=None, py=None, parts=None):
+        self.is_own_kwargs = False
         self.t = t
         self.ty = ty  # static type hint (see types.py) or None
         self.py = py  # the real Python object when this is a global constant (class, function, module ...)
